@@ -146,13 +146,26 @@ func (c *Ctx) checkDispatchShape(lazy []core.TableEntry) {
 		if !ok || rel != "" {
 			continue
 		}
-		isDisp := false
-		for _, ci := range core.CallsIn(fn) {
-			if funcValueLookupTable(ci.Common().Value) != "" {
-				isDisp = true
+		// the dispatcher: asserts its node parameter to dag-pb (comma-ok) and calls a function value (the selected constructor)
+		isDisp, callsValue := false, false
+		for _, b := range fn.Blocks {
+			for _, ins := range b.Instrs {
+				if x, ok := ins.(*ssa.TypeAssert); ok && x.CommaOk {
+					if _, isParam := x.X.(*ssa.Parameter); isParam && strings.Contains(types.TypeString(x.AssertedType, nil), "dagpb") {
+						isDisp = true
+					}
+				}
 			}
 		}
-		if !isDisp {
+		for _, ci := range core.CallsIn(fn) {
+			cc := ci.Common()
+			if !cc.IsInvoke() && cc.StaticCallee() == nil {
+				if _, isB := cc.Value.(*ssa.Builtin); !isB {
+					callsValue = true
+				}
+			}
+		}
+		if !isDisp || !callsValue {
 			continue
 		}
 		n++
@@ -292,6 +305,19 @@ func isLookupOK(v ssa.Value) bool {
 	case *ssa.Extract:
 		if lk, ok := x.Tuple.(*ssa.Lookup); ok && lk.CommaOk && x.Index == 1 {
 			return true
+		}
+		// the ok result of a helper all of whose returns yield a table lookup's ok
+		if call, ok := x.Tuple.(*ssa.Call); ok {
+			if f := call.Call.StaticCallee(); f != nil && len(f.Blocks) > 0 {
+				n := 0
+				for _, ret := range core.Returns(f) {
+					if x.Index >= len(ret.Results) || !isLookupOK(ret.Results[x.Index]) {
+						return false
+					}
+					n++
+				}
+				return n > 0
+			}
 		}
 	case *ssa.Phi:
 		for _, e := range x.Edges {
@@ -460,7 +486,19 @@ func (c *Ctx) repoNamedTypes(pkgs map[string]bool) []*types.Named {
 // bytesKind: the value stored is known to be a bytes-kind node: guarded by Kind()==Kind_Bytes on the same value,
 // a Must() of a Maybe whose element type is the schema's Bytes, or basicnode.NewBytes(...).
 func (c *Ctx) bytesKind(fn *ssa.Function, st *ssa.Store, kindBytes int64) bool {
-	v := st.Val
+	return c.bytesKindVal(st.Block(), st.Val, kindBytes, 0)
+}
+
+func (c *Ctx) bytesKindVal(at *ssa.BasicBlock, v ssa.Value, kindBytes int64, depth int) bool {
+	if phi, ok := v.(*ssa.Phi); ok && depth < 4 {
+		for _, e := range phi.Edges {
+			if !c.bytesKindVal(at, e, kindBytes, depth+1) {
+				return false
+			}
+		}
+		return true
+	}
+	st := struct{ blk *ssa.BasicBlock }{at}
 	for {
 		if mi, ok := v.(*ssa.MakeInterface); ok {
 			v = mi.X
@@ -483,7 +521,7 @@ func (c *Ctx) bytesKind(fn *ssa.Function, st *ssa.Store, kindBytes int64) bool {
 		}
 	}
 	// guarded by v.Kind() == Kind_Bytes
-	return core.GuardedBy(st.Block(), func(cond ssa.Value) (bool, bool) {
+	return core.GuardedBy(st.blk, func(cond ssa.Value) (bool, bool) {
 		bo, ok := cond.(*ssa.BinOp)
 		if !ok || (bo.Op != token.EQL && bo.Op != token.NEQ) {
 			return false, false
